@@ -9,6 +9,8 @@ func init() {
 		NotDecided:  "Equality of the rendered JSON with the typed decode; invalid JSON from zero values / empty keys in string-keyed maps (state-dependent, see C15); descriptor serialisation round trips.",
 		Assumptions: []string{"A4", "A5"},
 		Run: func(c *Ctx) {
+			// round 13: a present field with an empty body is rendered
+			ruleWalkerEmptyField(c)
 			// round 11: the JSON value encoding the walker reads, and integers written as numbers
 			ruleJSONValueSpec(c)
 			ruleJSONProtocol(c)
